@@ -100,12 +100,14 @@ def confirm(ob):
                 "confirmed_on_real_code": True}
     import re
     import replay
-    m = re.search(r"hist\[(\d+)\]\.from_ranges", ob.name)
+    m = re.search(r"hist(_const)?\[(\d+)\]\.from_ranges", ob.name)
     vals = (ob.cex or {}).get("playback_values") or []
     if not m or not vals:
         return None
-    L = int(m.group(1))
+    L = int(m.group(2))
     t = {1: "H1", 2: "H2", 3: "H3", 4: "H4", 10: "Histogram10"}.get(L)
+    if m.group(1):
+        t = "HC%d" % L if L <= 4 else None      # const-generic copy: cargo +nightly replay
     if t is None or len(vals) < L + 4:
         return None
     xs = [float(v["as_f64"]) for v in vals[:L + 3]]
